@@ -12,7 +12,7 @@ import (
 
 func init() {
 	register("C32", propMeta{
-		Explanation:  "Decides index maintenance completeness and the shape of the result; the BM25 arithmetic itself is NOT decided (a symbolic match of the score expression would fire on algebraically equivalent rewrites): (R1) Index.Add: every nil-returning path has updated all five statistics - docStats.Add, for every distinct term postings.Add and termStats (UpdateCurrentValue(count+1) when found, Add(term, 1) otherwise), global total_docs (+1) and total_len (+docLen); (R2) Index.Search: the returned slice is built by ranging the per-document score map (each document at most once), contributions are accumulated with +=, and the slice is sorted by sort.Slice with less = Score(i) > Score(j) after the last append, with nothing in between that reorders it; (R3) writer/reader agreement on the postings key: Add builds term + \"|\" + docID, Search scans from term + \"|\", stops at the first key without that prefix and cuts the document id at the same length; (R4) Add and Search see the same terms: both tokenise through the index's tokenizer field, and SimpleTokenizer lower-cases every token with strings.ToLower (total over Unicode) unconditionally before the stop-word test and the append.",
+		Explanation:  "Decides index maintenance completeness and the shape of the result; the BM25 arithmetic itself is NOT decided (a symbolic match of the score expression would fire on algebraically equivalent rewrites): (R1) Index.Add: every nil-returning path has updated all five statistics - docStats.Add, for every distinct term postings.Add and termStats (UpdateCurrentValue(count+1) when found, Add(term, 1) otherwise), global total_docs (+1) and total_len (+docLen); (R2) Index.Search: the returned slice is built by ranging the per-document score map (each document at most once), contributions are accumulated with +=, and the slice is sorted by sort.Slice with less = Score(i) > Score(j) after the last append, with nothing in between that reorders it; (R3) writer/reader agreement on the postings key: Add builds term + \"|\" + docID, Search scans from term + \"|\", stops at the first key without that prefix and cuts the document id at the same length; (R4) Add and Search see the same terms: both tokenise through the index's tokenizer field, and SimpleTokenizer lower-cases every token with strings.ToLower (total over Unicode) unconditionally before the stop-word test and the append. (R5) the Index keeps no derived state that can go stale: a field assigned outside the constructor must be assigned on every successful path of Add.",
 		DoesNotCover: "Score values (the BM25 formula, IDF, average length), tokenisation quality, and behaviour for documents indexed twice are not decided.",
 	}, runC32)
 }
